@@ -25,25 +25,23 @@ import types
 import hashlib
 
 
-class GlobalsWrapper():
+class EvalGlobals(dict):
+    ''' Globals used to run the code of an eval node: names which are not defined by the code
+        itself (or by the eval symbols) are looked up among the top-level nodes of the config,
+        python falls back to builtins if the lookup raises KeyError.
+    '''
     def __init__(self, gbls, ecfg, ctx, node, path):
-        self.gbls = gbls
-        self.ecfg = ecfg
-        self.ctx = ctx
-        self.node = node
-        self.path = path
+        super().__init__(gbls)
+        self._ayns_ecfg = ecfg
+        self._ayns_ctx = ctx
+        self._ayns_node = node
+        self._ayns_path = path
 
-    def __getattr__(self, name):
-        if name in self.gbls:
-            return self.gbls[name]
-
-        if name in self.ecfg._cfgobj:
-            with self.ctx.require_all_safe(self.node, self.path):
-                return self.ecfg[name]
-        elif name in __builtins__:
-            return __builtins__[name]
-        else:
-            raise NameError(name)
+    def __missing__(self, name):
+        if name in self._ayns_ecfg._cfgobj:
+            with self._ayns_ctx.require_all_safe(self._ayns_node, self._ayns_path):
+                return self._ayns_ecfg[name]
+        raise KeyError(name)
 
 class EvalNode(ConfigScalar(str)):
     ''' Implements ``!eval`` tag.
@@ -104,7 +102,8 @@ class EvalNode(ConfigScalar(str)):
             gbls.update(ctx.get_eval_symbols())
             gbls.update({ '__name__': eval_module_name, '__file__': self._source_file })
 
-        gbls[EvalNode._globals_wrapper_name] = GlobalsWrapper(gbls, ctx.ecfg, ctx, self, path)
+        module_gbls = gbls
+        gbls = EvalGlobals(gbls, ctx.ecfg, ctx, self, path)
 
         lines = self.strip().split('\n')
         lines = [lline for line in lines for lline in line.split(';')]
@@ -113,12 +112,10 @@ class EvalNode(ConfigScalar(str)):
         eval_line = lines[-1].strip()
 
         try:
-            exec_code = compile(exec_lines, self._source_file, 'exec')
-            eval_code = compile(eval_line, self._source_file, 'eval')
-            exec_code_patched, _ = EvalNode._patch_access_to_globals(exec_code)
-            eval_code_patched, _ = EvalNode._patch_access_to_globals(eval_code)
-            exec(exec_code_patched, gbls)
-            ret = eval(eval_code_patched, gbls)
+            exec_code = compile(exec_lines, self._source_file or '<unknown>', 'exec')
+            eval_code = compile(eval_line, self._source_file or '<unknown>', 'eval')
+            exec(exec_code, gbls)
+            ret = eval(eval_code, gbls)
         except EvalError as e:
             code = f'=== CODE BEGINS ===\n{os.linesep.join(lines)}\n=== CODE ENDS ==='
             if e.node is self:
@@ -130,9 +127,9 @@ class EvalNode(ConfigScalar(str)):
             code = f'=== CODE BEGINS ===\n{os.linesep.join(lines)}\n=== CODE ENDS ==='
             raise EvalError('The above exception occurred in the user code.', self, path, note=code) from e
 
-        del gbls[EvalNode._globals_wrapper_name]
-
-        if len(lines) > 1 and self.persistent_namespace and not from_module:
+        if from_module:
+            module_gbls.update(gbls)
+        elif len(lines) > 1 and self.persistent_namespace:
             eval_node_module = types.ModuleType(eval_module_name, 'Dynamic module to evaluate awesomeyaml !eval node')
             eval_node_module.__dict__.update(gbls)
             sys.modules[eval_module_name] = eval_node_module
